@@ -179,6 +179,15 @@ pub fn export_history(req: &Value) -> Value {
     let mut results = vec![];
     for st in req["steps"].as_array().unwrap() {
         let kind = st[0].as_str().unwrap().to_string();
+        if kind == "hide" || kind == "restore" {
+            // fault injection (C17): replace a file by a directory / put it back
+            let f = root.join(st[1].as_str().unwrap());
+            let bak = f.with_extension("bak");
+            if kind == "hide" { let _ = std::fs::rename(&f, &bak); let _ = std::fs::create_dir_all(&f); }
+            else { let _ = std::fs::remove_dir_all(&f); let _ = std::fs::rename(&bak, &f); }
+            results.push(json!(kind));
+            continue;
+        }
         let ty = st[1].as_str().unwrap().to_string();
         let dir = st.get(2).and_then(|d| d.as_str()).map(|s| s.to_string());
         let r = catch(move || export_step(&kind, &ty, dir.as_deref()));
